@@ -2,3 +2,4 @@ import Dagrt.Props.C06
 import Dagrt.Props.C10
 import Dagrt.Props.C14
 import Dagrt.Props.C04
+import Dagrt.Props.C05
